@@ -44,6 +44,10 @@ class C01(PropertyCheck):
             c = barandom.random_content(rng, e, max_size=ms)
             ops = barandom.build_ops(rng, c) + [("lvl", ["3"])]
             cases.append(Case(pyarchive.render_case(e, 0, ops), "api-built"))
+        # (A2) numeric coincidences between the two offset spaces of the file (see barandom.coincidence_contents)
+        for c in barandom.coincidence_contents():
+            ops = barandom.build_ops(rng, c, shuffle=False, noise=False) + [("lvl", ["3"])]
+            cases.append(Case(pyarchive.render_case(c.e, 0, ops), "offset-coincidence"))
         # (B) knob files
         n = 400 if tier == "quick" else 4000
         for i in range(n):
